@@ -250,8 +250,8 @@ func parent(ck *checks.Check, tier string, dl time.Duration) int {
 		fmt.Printf("  (%d further findings were not kept)\n", extra)
 	}
 
-	if total.Transitions == 0 {
-		total.Transitions = total.Evaluations // engine E: one transition (input -> rendered symbol) per execution
+	if total.Transitions == 0 || ck.Engine == "E" {
+		total.Transitions += total.Evaluations // engine E: one transition (input -> rendered symbol) per execution, plus any extra calls the evaluator made
 	}
 	exhaustive := len(total.Incomplete) == 0
 	wall := time.Since(start).Seconds()
